@@ -1,5 +1,6 @@
 import LZ4V.Proofs.BlockHub
 import LZ4V.Proofs.FastRProof
+import LZ4V.Proofs.FastSProof
 /-!
 # C18 — compression contexts stay correct after any history of reuse (specification part)
 -/
@@ -73,5 +74,18 @@ theorem reused_state_invariant (hashOf : Array UInt8 → Bool → Nat → Nat) (
     LZ4V.Model.FastR.J (LZ4V.Model.FastR.call hashOf S src acceleration cap bound).1 ∧
     (∀ blk, (LZ4V.Model.FastR.call hashOf S src acceleration cap bound).2 = some blk → decode [] blk = some src.toList) :=
   LZ4V.Model.FastR.call_spec hashOf S src acceleration cap bound hJ
+
+/-- **A streaming session on a reused stream never refers to an earlier life of the stream** (model `Model/FastS.lean` of
+    `LZ4_compress_fast_continue` on contiguous blocks).  Whatever the stream did before `LZ4_resetStream_fast` — the state it leaves is ANY table of
+    indexes not above `currentOffset`, any `currentOffset`, no dictionary — every block of the session that follows decodes against the bytes
+    of THIS session alone.  The judge checks the hypothesis on the real state dumped after every real reset. -/
+theorem reused_stream_session_decodes_alone (hashOf : Array UInt8 → Bool → Nat → Nat) (tbl : Array Nat) (currentOffset : Nat)
+    (htbl : ∀ i, tbl.getD i 0 ≤ currentOffset) (calls : List (Array UInt8 × Int × Nat))
+    (k : Nat) (hk : k < calls.length) (blk : List UInt8)
+    (h : (LZ4V.Model.FastS.session hashOf { tbl := tbl, currentOffset := currentOffset, dictSize := 0, mem := #[] } calls)[k]? = some (some blk)) :
+    decode (LZ4V.Model.FastS.prior calls k) blk = some (calls[k]).1.toList := by
+  have := LZ4V.Model.FastS.session_spec hashOf calls { tbl := tbl, currentOffset := currentOffset, dictSize := 0, mem := #[] }
+    ⟨htbl, Nat.zero_le _, Nat.zero_le _⟩ k hk blk h
+  simpa using this
 
 end LZ4V.C18
